@@ -1,14 +1,15 @@
 /-
   Dynamic model, layer B ("full run"): layer A plus everything `co_run` / `co_shutdown` decide —
   when a run leaves its main loop (critical failure, all regular jobs done, expiry, cancellation from the
-  enclosing scheduler), what it cancels, how it shuts its jobs down, what it returns or raises, what
+  enclosing scheduler, failure of the orchestration code itself), what it cancels, how it shuts its jobs down, what it returns or raises, what
   `failed_time_out()` / `failed_critical()` then say.
 
   The state embeds a layer-A state and every event is mapped to layer-A events (`projA`), so every
   accepted history of this layer projects onto an accepted history of layer A (`Proofs/Refine.lean`).
 
   Transcribes (after the repairs recorded in known_findings.json):
-    purescheduler.py  co_run (cancellation wrapper), _co_run 992-1160, _abort_on_timeout 974-990, _tidy_tasks 698-725,
+    purescheduler.py  co_run (cancellation / orchestration-failure wrapper, with `try … finally` around its
+                      `_tidy_tasks` — see CRASHED-TIDY in `stepB`), _co_run 992-1160, _abort_on_timeout 974-990, _tidy_tasks 698-725,
                       co_shutdown 864-912, _record_beginning / _remaining_timeout
     scheduler.py      Scheduler.co_run 114-136 (verdict conversion)
   Core Lean only.
@@ -17,9 +18,11 @@ import AJ.Model.Run
 namespace AJ.Full
 open AJ.Run
 
-/-- why a run left its main loop -/
+/-- why a run left its main loop; `crashed`: an exception raised by the orchestration code itself inside `_co_run()`
+    (a `_feedback()` message of the reaction that cannot be printed), caught by the wrapper `co_run()`
+    (`except (asyncio.CancelledError, Exception):`), which tidies, shuts down and re-raises it -/
 inductive Exit
-  | success | critical | timeout | cancelled
+  | success | critical | timeout | cancelled | crashed
   deriving DecidableEq, Repr, Inhabited
 
 /-- where `co_run` of a scheduler is suspended -/
@@ -102,6 +105,9 @@ inductive EvB
   /-- `co_run` of `s` reacts to them: critical failure? all regular jobs done? deadline reached? else start
       successors -/
   | react (s : Nat)
+  /-- instead of reacting, the orchestration code of `s` itself raises (one of the `_feedback()` calls of the
+      reaction fails): `_co_run()` is left with that exception, the wrapper `co_run()` cleans up and re-raises it -/
+  | orchFail (s : Nat)
   /-- the main wait of `s` returns nothing: its timeout elapsed -/
   | timeoutFire (s : Nat)
   /-- `_tidy_tasks` of `s` returns: every task it cancelled has finished; `pick` names the critical job
@@ -178,6 +184,10 @@ def broadcast (c : Cfg) (st : StB) (s : Nat) (w : Who) : StB :=
 def verdict (c : Cfg) (st : StB) (s : Nat) (x : Exit) (pick : Nat) : Option (Option Res) :=
   match x with
   | .cancelled => some none
+  -- the wrapper `co_run()` re-raises (`raise`) the exception of the orchestration code: `PureScheduler.co_run` never
+  -- returns, so the conversion of `Scheduler.co_run` (scheduler.py 115-136) is not reached: critical or not,
+  -- nestable or not, the run raises that very object
+  | .crashed => some (some (.exc (.orch s)))
   | .success => some (some (.retBool true))
   | .timeout =>
     if nestable c s && c.critical s then some (some (.exc (.tmo s))) else some (some (.retBool false))
@@ -201,7 +211,8 @@ def finishRun (c : Cfg) (st : StB) (s : Nat) (x : Exit) (pick : Nat) : Option St
       -- (`_failed_timeout` and `_failed_critical` were recorded when the loop was left: `exitLoop`)
       some { st with a := a', pcB := setAt st.pcB s .over }
 
-/-- the run of `s` leaves its main loop for reason `x`: `_tidy_tasks(pending)` cancels what is left;
+/-- the run of `s` leaves its main loop for reason `x`: `_tidy_tasks(pending)` (for `cancelled` and `crashed`: the
+    `_tidy_tasks(unfinished tasks)` of the wrapper `co_run()`, the same set) cancels what is left;
     on expiry (`_abort_on_timeout`) `_failed_timeout`, on a critical failure `_failed_critical`, is recorded first,
     before the clean-up -/
 def exitLoop (_c : Cfg) (st : StB) (s : Nat) (x : Exit) (a' : StA) : StB :=
@@ -259,12 +270,43 @@ def stepB (c : Cfg) (st : StB) : EvB → Option StB
         match stepA c st.a (.leave s (liveChildren c st.a s)) with
         | none => none
         | some a' => some (exitLoop c st1 s .cancelled a')
-      | .tidy _ => some { st1 with pcB := setAt st.pcB s (.tidy .cancelled) }
+      -- (`.tidy .cancelled` / `.shut .cancelled` / `.shutTidy .cancelled` reached from the loop have `carrived`: the
+      --  guard above excludes them; the exits below are `success`, `critical`, `timeout` — clean-up inside `_co_run()`,
+      --  followed, once interrupted, by the clean-up of the wrapper — and `crashed` — clean-up inside the wrapper's
+      --  `except` clause already, followed by nothing)
+      | .tidy _ =>
+        -- `_tidy_tasks` swallows the `CancelledError`, keeps waiting, and re-raises it once every task is finished.
+        -- success/critical/timeout: it leaves `_co_run()`; the wrapper has nothing left to tidy, calls `co_shutdown()`
+        -- and re-raises: the run goes on as one cancelled in its loop.
+        -- crashed (CRASHED-TIDY): this `_tidy_tasks` is the wrapper's own, inside its `except` clause, and nothing
+        -- follows the wrapper.  Transcribed is the wrapper AS REPAIRED:
+        --     except (asyncio.CancelledError, Exception):
+        --         try:
+        --             await self._tidy_tasks([unfinished tasks])
+        --         finally:
+        --             await self.co_shutdown()
+        --         raise
+        -- the `CancelledError` re-raised by `_tidy_tasks` once every task is finished is still followed by
+        -- `co_shutdown()` (the `finally`), after which it propagates: same transition as for the other exits — the tidy
+        -- is completed, the shutdown broadcast takes place, the run ends cancelled.  (Before that repair the two
+        -- `await`s were in sequence and the `CancelledError` left the `except` clause before `co_shutdown()`: the run
+        -- ended cancelled without its shutdown broadcast, against C13 — `stepBAsIs` and the witness at the end of
+        -- `Proofs/ExitB.lean`.)
+        some { st1 with pcB := setAt st.pcB s (.tidy .cancelled) }
       | .shut _ =>
-        -- raised out of co_shutdown's wait: the handlers are cancelled and awaited
+        -- raised out of co_shutdown's wait: the handlers are cancelled and awaited (`except CancelledError` of
+        -- `co_shutdown()`), then the `CancelledError` is re-raised.  success/critical/timeout: out of `_co_run()`, the
+        -- wrapper finds nothing to tidy and `co_shutdown()` returns at once (`_did_shutdown`).  crashed (as for a run
+        -- cancelled in its loop, were a second cancellation possible): it leaves the wrapper's `except` clause
+        -- directly, replacing the orchestration's exception.  Either way the run ends cancelled once the handlers
+        -- are finished: same transition.
         some { st1 with pcB := setAt st.pcB s (.shutTidy .cancelled), bc := setAt st.bc s (.btidy .inline),
                         hcreq := fun k => st.hcreq k || decide (k ∈ activeHandlers c st s) }
-      | .shutTidy _ => some { st1 with pcB := setAt st.pcB s (.shutTidy .cancelled) }
+      | .shutTidy _ =>
+        -- `_tidy_tasks(pending)` of `co_shutdown()` swallows it, keeps waiting for the handlers it cancelled, then
+        -- re-raises: out of `co_shutdown()`, and from there as in the case above — for `crashed` too the run ends
+        -- cancelled (the `CancelledError` replaces the exception the wrapper was about to re-raise)
+        some { st1 with pcB := setAt st.pcB s (.shutTidy .cancelled) }
       | _ => none
     else none
   | .waitReturn s =>
@@ -296,6 +338,17 @@ def stepB (c : Cfg) (st : StB) : EvB → Option StB
           match stepA c st.a (.react s false []) with
           | none => none
           | some a' => some { st with a := a', nbDone := setAt st.nbDone s nb }
+    | _, _ => none
+  | .orchFail s =>
+    -- enabled exactly where `react s` is; nothing is counted (`nbDone`), no successor is started, `_failed_timeout` /
+    -- `_failed_critical` keep the `False` they were reset to (`exitLoop` only sets them for `timeout` / `critical`);
+    -- the wrapper's `_tidy_tasks` calls `cancel()` on every unfinished task
+    match st.pcB s, st.a.rx s with
+    | .loop, some _ =>
+      if cancelPending st s then none else
+      match stepA c st.a (.react s true (liveChildren c st.a s)) with
+      | none => none
+      | some a' => some (exitLoop c st s .crashed a')
     | _, _ => none
   | .timeoutFire s =>
     if st.pcB s = .loop ∧ cancelPending st s = false ∧ st.a.rx s = none ∧ doneSet c st.a s = [] ∧
